@@ -156,6 +156,42 @@ func RunC01(r *core.Run) {
 		c := &Case{P: P, Cfg: msgCfg(rr, 4, 2), Buf: b, Start: 0}
 		resumeSchedules(w, rr, c, op, 300)
 	})
+	// long messages (up to the addressing limit) with cuts around powers of two and random cuts
+	r.Stage("long-messages", r.Pick(1500, 40000), func(w *core.Worker, idx int64) {
+		rr := core.NewRand(r.Seed, 0xC01, 5, uint64(idx))
+		m := gen.Msg(rr, gen.MsgOpts{MinHdrs: 20, MaxHdrs: 60, MultiNA: 50, MaxBody: 200})
+		b := m.Raw
+		// stretch one header with a long folded value
+		L := []int{2000, 8190, 8200, 16400, 33000, 60000}[rr.Intn(6)]
+		ins := []byte("X-Long: a")
+		for len(ins) < L && len(b)+len(ins) < 65000 {
+			ins = append(ins, []string{" word", "\r\n more", ";p=v", ", x", "                "}[rr.Intn(5)]...)
+		}
+		ins = append(ins, "\r\n"...)
+		pos := m.Hdrs[rr.Intn(len(m.Hdrs))].Line.S
+		b = append(append(append([]byte(nil), b[:pos]...), ins...), b[pos:]...)
+		if len(b) > 65535 {
+			return
+		}
+		var cuts []int
+		for _, c := range []int{255, 256, 4095, 4096, 8191, 8192, 8193, 16384, 32767, 32768, 65535} {
+			if c < len(b) && rr.Bool() {
+				cuts = append(cuts, c)
+			}
+		}
+		for i := rr.Range(1, 10); i > 0; i-- {
+			cuts = append(cuts, rr.Intn(len(b)+1))
+		}
+		cuts = append(cuts, len(b))
+		sortInts(cuts)
+		c := &Case{P: P, Cfg: msgCfg(rr, len(m.Hdrs)+1, countContacts(m)), Buf: b, Start: 0}
+		c.Cfg.MsgFlags &^= 4
+		res := CheckResume(w, c, cuts, op)
+		if res.Suspended > 0 && res.Definite {
+			w.Nontrivial(core.HashBytes(b[:200]) ^ uint64(len(b))<<32)
+			w.Inc("nontrivial_cases")
+		}
+	})
 	// enumerated short-message family: every body over the branch alphabet under
 	// every typed header, inside a complete message, S1 + S2 on all of them
 	L := int(r.Pick(3, 4))
@@ -206,4 +242,12 @@ func loadCorpus() [][]byte {
 	}
 	out = append(out, gen.RepoCorpus()...)
 	return out
+}
+
+func sortInts(a []int) {
+	for i := 1; i < len(a); i++ {
+		for j := i; j > 0 && a[j] < a[j-1]; j-- {
+			a[j], a[j-1] = a[j-1], a[j]
+		}
+	}
 }
